@@ -184,6 +184,8 @@ func (e *Exec) retype(v Value, t types.Type) Value {
 }
 
 // alloc a fresh object of type t (zero-initialised)
+const refStride = 1024
+
 func (e *Exec) alloc(t types.Type, st *State, comment string) PtrV {
 	switch u := under(t).(type) {
 	case *types.Array:
@@ -194,9 +196,12 @@ func (e *Exec) alloc(t types.Type, st *State, comment string) PtrV {
 		e.fillZero(u.Elem(), "elem:"+typeName(u.Elem()), base, ConstI(u.Len(), Ref), st)
 		return p
 	}
+	// object references are spaced out so that the (uninterpreted) addresses of embedded
+	// structs of fresh objects have room between them
 	r := st.refTop
-	st.refTop = AddNW(st.refTop, ConstI(1, Ref))
+	st.refTop = AddNW(st.refTop, ConstI(refStride, Ref))
 	e.ctx.assume(Lt(ConstI(0, Ref), r))
+	e.ctx.assume(Eq(App("fatag", Ref, r), ConstI(0, Ref))) // a separately allocated object is not an embedded one
 	p := e.ptrFromTerm(r, t)
 	e.storeAt(st, p, e.zeroValue(t))
 	return p
